@@ -254,6 +254,8 @@ func TestC02(t *testing.T) {
 		return
 	}
 	ev.Check(t, "c02_uniform", ev.N(320, 3200), c02Gen, c02Run)
+	// "no other string is ever returned": long recipes with an invalid first candidate
+	ev.Check(t, "c02_long_invalid_first", ev.N(800, 16000), longInvalidFirstGen, longInvalidFirstRun)
 	// long passwords / full-size alphabets: every draw matters (local injectivity)
 	ev.Check(t, "c02_long_injective", ev.N(48, 480), func(t *rapid.T) supChar {
 		sp := gen.CharSpec(t, gen.CharOpts{MaxLen: 150, MinLen: 12, MaxReq: 2, NoHiBits: true})
